@@ -29,7 +29,7 @@ class Prop:
 
 
 # properties with a check under construction (not claimed in MANIFEST yet): id -> reason
-UNCLAIMED = {"C15": "correspondence families run; theorems not yet in place (in progress)", "C12": "correspondence families run; theorems not yet in place (in progress)", "C13": "correspondence families run; theorems not yet in place (in progress)"}
+UNCLAIMED = {}
 
 
 def corpus(pid):
